@@ -531,7 +531,15 @@ int harness_main (int argc, char **argv, const HarnessCfg &cfg) {
     if (const char *d = harness_opt ("deadline")) deadline = t0 + atof (d);
     rc = pbt_run (cfg.property, cfg.len_scale, [deadline, t0] (const std::vector<uint8_t> &b) {
       // shrinking gets half of the budget again, then the current (smaller) case is kept
-      if (deadline > 0 && now_s () > (have_failure ? deadline + (deadline - t0) / 2 + 20 : deadline)) {
+      if (deadline > 0 && have_failure && now_s () > deadline + (deadline - t0) / 2 + 20) {
+        // shrinking budget used up: keep the current (smaller) failing case. rapidcheck would still walk every
+        // remaining shrink candidate of a multi-KB vector, which takes minutes under ASan, so finish here.
+        label_counts["shrink_stopped_by_time_budget"]++;
+        write_result (now_s () - t0);
+        fflush (NULL);
+        _exit (1);
+      }
+      if (deadline > 0 && !have_failure && now_s () > deadline) {
         label_counts["skipped_after_time_budget"]++; /* budget hit: explored less, never a verdict */
         return true;
       }
